@@ -21,7 +21,12 @@ from vlib.gridmodel import GridModel
 PID = 'C17'
 LEVEL = 'exploration'
 BUDGET_S = {'quick': 40, 'thorough': 540}
-FLOORS = {'quick': {'scenarios': 1}, 'thorough': {'scenarios': 1}}
+FLOORS = {'quick': {'scenarios': 60, 'client_requests': 900, 'upstream_calls': 1500, 'judged_srs': 700, 'judged_format': 400,
+                    'judged_bbox': 500, 'judged_dims': 700, 'judged_tile_exists': 700, 'no_call_expected_checks': 700,
+                    'no_call_coverage': 350, 'no_call_res': 350, 'reprojection_forced_cases': 400,
+                    'equal_srs_other_code_cases': 80, 'dims_forwarded_cases': 250, 'dims_withheld_cases': 400,
+                    'bbox_on_coverage_edge': 350, 'combined_upstream_requests': 40, 'rendezvous_of_sibling_sources': 40},
+          'thorough': {'scenarios': 60}}
 RULE = ("case = one generated configuration (1-3 WMS sources: supported_srs 0-3 codes out of 7, supported_formats, "
         "coverage bbox|polygon in any of the SRS, min/max res or scale tied to the cache ladder with factors "
         "1/1.001/1.3.., forward_req_params, version, method; optional tile source on its own grid with 6 URL template "
@@ -135,10 +140,12 @@ def pt(src, dst, x, y):
 
 # ---- configuration generator -------------------------------------------------------------------------------------
 
-def gen_grid(rng, R0, srs=None, factor=None, tile_size=None, nlev=None):
+def gen_grid(rng, R0, srs=None, factor=None, tile_size=None, nlev=None, ll=None):
     srs = srs or rng.choice(GRID_SRS)
     u = upm(srs)
-    if srs in WORLD and rng.random() < 0.3:
+    if ll is not None:
+        bbox = envelope(ll, 'EPSG:4326', srs)
+    elif srs in WORLD and rng.random() < 0.3:
         bbox = WORLD[srs]
     else:
         ll = (AOI[0] - rng.uniform(0.2, 3), AOI[1] - rng.uniform(0.2, 2), AOI[2] + rng.uniform(0.2, 3), AOI[3] + rng.uniform(0.2, 2))
@@ -152,8 +159,8 @@ def gen_grid(rng, R0, srs=None, factor=None, tile_size=None, nlev=None):
             'origin': rng.choice(['ll', 'ul'])}
 
 
-def gen_coverage(rng, name):
-    srs = rng.choice(POOL)
+def gen_coverage(rng, name, srs=None):
+    srs = srs or rng.choice(POOL)
     w, h = rng.uniform(1.2, 6.0), rng.uniform(1.2, 6.0)
     lo0 = rng.uniform(AOI[0], AOI[2] - w)
     la0 = rng.uniform(AOI[1], AOI[3] - h)
@@ -164,8 +171,7 @@ def gen_coverage(rng, name):
         cx, cy = (box[0] + box[2]) / 2, (box[1] + box[3]) / 2
         rx, ry = (box[2] - box[0]) / 2, (box[3] - box[1]) / 2
         k = rng.randint(3, 7)
-        angs = sorted(rng.uniform(0, 2 * math.pi) for _ in range(k))
-        # keep it a simple polygon around the centre: spread the angles
+        # a simple (star-shaped) polygon around the centre
         angs = [2 * math.pi * (i + rng.uniform(0.1, 0.9)) / k for i in range(k)]
         pts = [[cx + rx * rng.uniform(0.5, 1.0) * math.cos(a), cy + ry * rng.uniform(0.5, 1.0) * math.sin(a)] for a in angs]
         cov['kind'] = 'poly'
@@ -228,7 +234,14 @@ TEMPLATES = {
 def gen_tile_source(rng, R0):
     s = {'kind': 'tile', 'name': 't0', 'host': 't0'}
     srs = rng.choice(['EPSG:3857', 'EPSG:25832', 'EPSG:4326', 'EPSG:3035', 'EPSG:900913'])
-    g = gen_grid(rng, R0, srs=srs, factor=rng.choice([2, 2, 2, 2, 1.5]), nlev=rng.randint(3, 6))
+    ll = None
+    if rng.random() < 0.35:
+        # a source grid smaller than the area of interest: coverages and cache grids reach beyond it
+        w, h = rng.uniform(2.0, 5.0), rng.uniform(2.0, 5.0)
+        lo0, la0 = rng.uniform(AOI[0], AOI[2] - w), rng.uniform(AOI[1], AOI[3] - h)
+        ll = (lo0, la0, lo0 + w, la0 + h)
+    g = gen_grid(rng, R0, srs=srs, factor=rng.choice([2, 2, 2, 2, 1.5]), nlev=rng.randint(3, 6), ll=ll)
+    s['grid_small'] = ll is not None
     s['grid'] = g
     s['template'] = rng.choice(sorted(TEMPLATES))
     ladder_m = [r / upm(srs) for r in g['res']]
@@ -271,39 +284,78 @@ def gen_tile_source(rng, R0):
     return s
 
 
-def gen_spec(rng):
+FLAVOURS = ['free', 'free', 'free', 'equal_codes', 'shared_url', 'near_miss']
+
+
+def gen_spec(rng, flavour='free'):
+    """flavour biases the draw towards configurations that are rare under uniform choice (never away from them):
+    equal_codes = sources that list different codes of one SRS (3857/900913, 4326/CRS:84) next to each other;
+    shared_url = two sources behind one URL with different resolution ranges; near_miss = coverages in a projected
+    SRS queried with tall geographic rectangles that just miss them"""
     R0 = rng.choice([150, 300, 600, 1200, 2500]) * rng.uniform(0.8, 1.25)
-    spec = {'R0': R0}
-    cg = gen_grid(rng, R0)
+    spec = {'R0': R0, 'flavour': flavour}
+    pair = rng.choice([('EPSG:3857', 'EPSG:900913'), ('EPSG:900913', 'EPSG:3857'), ('EPSG:4326', 'CRS:84'), ('CRS:84', 'EPSG:4326')])
+    cg = gen_grid(rng, R0, srs=(pair[0] if pair[0] != 'CRS:84' else 'EPSG:4326') if flavour == 'equal_codes' else None)
     spec['cg'] = cg
     ladder_m = [r / upm(cg['srs']) for r in cg['res']]
-    nw = rng.choice([1, 2, 2, 3])
+    nw = rng.choice([1, 2, 2, 3]) if flavour in ('free', 'near_miss') else rng.choice([2, 2, 3])
     srcs = [gen_wms_source(rng, 'w%d' % i, ladder_m) for i in range(nw)]
+    if flavour == 'equal_codes':
+        for i, sr in enumerate(srcs):
+            sr['supported_srs'] = [pair[i % 2]] + rng.sample([c for c in POOL if c not in pair], rng.choice([0, 0, 1]))
+            rng.shuffle(sr['supported_srs'])
+            sr['featureinfo'] = True
+        spec['bias_srs'] = list(pair)
+    if flavour == 'near_miss':
+        for sr in srcs:
+            sr['coverage'] = gen_coverage(rng, sr['name'], srs=rng.choice(['EPSG:25832', 'EPSG:3035', 'EPSG:31467', 'EPSG:3857']))
+            sr['res'] = None
+        spec['bias_srs'] = ['EPSG:4326', 'CRS:84', 'EPSG:3035', 'EPSG:25832']
+        spec['bias_near'] = True
     # a second source behind the same URL with the same srs/format/coverage: candidates for combined requests
-    if nw >= 2 and rng.random() < 0.3:
+    if nw >= 2 and (rng.random() < 0.3 or flavour == 'shared_url'):
         a, b = srcs[0], srcs[1]
         b['host'] = a['host']
         for k in ('supported_srs', 'supported_formats', 'coverage', 'version', 'method', 'transparent', 'req_format'):
             b[k] = a[k]
         if rng.random() < 0.5:
             b['fwd'] = a['fwd']
+        if flavour == 'shared_url':
+            for sr in (a, b):
+                sr['res'] = gen_res_range(rng, ladder_m)
+    # (a layer mixing sources with and without supported_srs answers every GetMap with 500: SupportedSRS.__eq__ against a
+    #  plain list raises AttributeError in WMSSource._is_compatible - outside C17, kept rare)
+    if nw >= 2 and rng.random() < 0.85:
+        have = [s for s in srcs if s['supported_srs']]
+        if have and len(have) < nw:
+            for s in srcs:
+                if not s['supported_srs']:
+                    s['supported_srs'] = rng.sample(POOL, rng.choice([1, 2, 3]))
     spec['wms'] = srcs
     names = [s['name'] for s in srcs]
     spec['direct_sources'] = rng.sample(names, min(len(names), rng.choice([1, 2, 2])))
     if nw >= 2 and srcs[1]['host'] == srcs[0]['host']:
         spec['direct_sources'] = ['w0', 'w1']
     spec['cache_sources'] = rng.sample(names, min(len(names), rng.choice([1, 1, 2])))
+    if flavour == 'equal_codes':
+        spec['direct_sources'] = names[:2]
+        spec['cache_sources'] = names[:2] if rng.random() < 0.7 else names[:1]
     spec['cache'] = {'meta_size': rng.choice([[1, 1], [2, 2], [3, 2], [1, 1]]), 'meta_buffer': rng.choice([0, 0, 20, 80]),
                      'format': rng.choice(['image/png', 'image/jpeg']),
                      'request_format': rng.choice([None, None, 'image/png', 'image/tiff', 'image/jpeg']),
                      'minimize_meta_requests': rng.random() < 0.2, 'concurrent_tile_creators': rng.choice([1, 2])}
     spec['dimensions'] = rng.random() < 0.4
+    spec['concurrent_layer_renderer'] = rng.choice([1, 1, 2])
     spec['tile'] = gen_tile_source(rng, R0) if rng.random() < 0.55 else None
     if spec['tile'] is not None:
         spec['cc_grid'] = gen_grid(rng, R0)
     pref = {}
     for _ in range(rng.choice([0, 1, 2, 3])):
         pref[rng.choice(POOL[:6])] = rng.sample(POOL[:6], rng.randint(1, 3))
+    if flavour == 'equal_codes':
+        spec['concurrent_layer_renderer'] = rng.choice([1, 2])
+        for _ in range(2):
+            pref[rng.choice([c for c in POOL[:6] if c not in pair])] = [rng.choice(pair)] + rng.sample(POOL[:6], 1)
     spec['preferred'] = pref
     return spec
 
@@ -381,7 +433,8 @@ def build_conf(spec, d):
         conf['layers'].append({'name': 'lt', 'title': 'lt', 'sources': ['ct']})
         conf['layers'].append({'name': 'lcc', 'title': 'lcc', 'sources': ['cc']})
     conf['services'] = {'wms': {'srs': list(POOL), 'image_formats': ['image/png', 'image/jpeg', 'image/gif'],
-                                'md': {'title': 'c17'}, 'featureinfo_types': ['text', 'html', 'xml']},
+                                'md': {'title': 'c17'}, 'featureinfo_types': ['text', 'html', 'xml'],
+                                'concurrent_layer_renderer': spec.get('concurrent_layer_renderer', 1)},
                         'tms': {}, 'wmts': {'kvp': True, 'restful': True}}
     return conf
 
@@ -476,29 +529,90 @@ def make_tile_handler(tsrc):
     return handler
 
 
-# ---- observation of the query a cached source is asked to answer ---------------------------------------------------
+# ---- observation of the query a source is asked to answer; forced schedule for sibling sources ----------------------
 TL = threading.local()
-ASKED = []
+BARRIER_TIMEOUT = 15.0
 
 
 def _before(call):
     call.extra['asked'] = getattr(TL, 'cur', None)
 
 
-def wrap_source(obj, src_name, cache_name):
+class Obs(object):
+    """per scenario: the queries put to wrapped sources, and the rendezvous groups of sibling sources.
+
+    MapProxy hands ONE MapQuery object to all sources of a cache (TileCreator._query_sources, one thread per source)
+    and, with concurrent_layer_renderer > 1, to all layers of a WMS request.  The rendezvous makes every sibling that
+    was handed the same query object wait inside source.extent.contains (i.e. after the SRS negotiation, before the
+    upstream request is built) until all siblings got there or left get_map: a legal interleaving of the real threads,
+    chosen so that the outcome does not depend on the machine's load."""
+
+    def __init__(self):
+        self.asked = []
+        self.lock = threading.Lock()
+        self.groups = {}
+        self.timeouts = 0
+        self.waits = 0
+
+    def enter(self, query, n):
+        with self.lock:
+            g = self.groups.get(id(query))
+            if g is None or g['q'] is not query:
+                g = self.groups[id(query)] = {'q': query, 'n': n, 'arrived': 0, 'cond': threading.Condition(self.lock)}
+            return g
+
+    def arrive(self, rec, wait):
+        g = rec.get('_grp')
+        if g is None or rec.get('_arrived'):
+            return
+        rec['_arrived'] = True
+        with self.lock:
+            g['arrived'] += 1
+            g['cond'].notify_all()
+            if wait and g['arrived'] < g['n']:
+                self.waits += 1
+                if not g['cond'].wait_for(lambda: g['arrived'] >= g['n'], timeout=BARRIER_TIMEOUT):
+                    self.timeouts += 1
+
+
+def wrap_source(obs, obj, src_name, cache_name, nsib, path):
     orig = obj.get_map
 
     def get_map(query):
         rec = {'src': src_name, 'cache': cache_name, 'bbox': tuple(float(v) for v in query.bbox),
-               'size': tuple(int(v) for v in query.size), 'srs': query.srs.srs_code, 'path': 'cached'}
-        ASKED.append(rec)
+               'size': tuple(int(v) for v in query.size), 'srs': query.srs.srs_code, 'path': path, 'calls': []}
+        if nsib > 1:
+            rec['_grp'] = obs.enter(query, nsib)
+        obs.asked.append(rec)
         prev = getattr(TL, 'cur', None)
         TL.cur = rec
         try:
             return orig(query)
         finally:
             TL.cur = prev
+            obs.arrive(rec, wait=False)
     obj.get_map = get_map
+    ext = getattr(obj, 'extent', None)
+    if nsib > 1 and ext is not None and hasattr(ext, 'contains'):
+        orig_contains = ext.contains
+
+        def contains(other):
+            rec = getattr(TL, 'cur', None)
+            if rec is not None and rec.get('src') == src_name:
+                obs.arrive(rec, wait=True)
+            return orig_contains(other)
+        ext.contains = contains
+
+
+def quiesce(run):
+    """worker threads of a failed request may still be running when the response is out: let them finish"""
+    me = threading.current_thread()
+    for t in threading.enumerate():
+        if t is me or t is threading.main_thread() or not t.is_alive():
+            continue
+        t.join(timeout=5.0)
+        if t.is_alive():
+            run.count('threads_still_running_after_request')
 
 
 # ---- oracle ------------------------------------------------------------------------------------------------------
@@ -535,11 +649,22 @@ def res_relation(res_cfg, asked):
     return out[0]
 
 
+def in_domain(srs, bbox):
+    """rectangle within the nominal world rectangle of the SRS (where one is known)"""
+    w = WORLD.get(norm_code(srs))
+    if w is None:
+        return True
+    e = 1e-9 * (w[2] - w[0])
+    return bbox[0] >= w[0] - e and bbox[1] >= w[1] - e and bbox[2] <= w[2] + e and bbox[3] <= w[3] + e
+
+
 def cov_relation(cov, asked):
     """'none' | 'inside' | 'partial' | 'disjoint' | 'near' (don't-care) | 'undefined' of the asked query against the
     coverage bbox, computed in the coverage SRS with the densified footprint"""
     if not cov:
         return 'none'
+    if not in_domain(asked['srs'], asked['bbox']):
+        return 'undefined'
     fp = envelope(asked['bbox'], asked['srs'], cov['srs'])
     if fp is None:
         return 'undefined'
@@ -595,6 +720,8 @@ def judge_wms_call(run, ctx, call, src, asked, op, combined):
     base = {'source_kind': 'wms', 'path': path, 'op': op, 'kind': call.kind}
     if combined:
         base['combined'] = True
+    if asked and asked.get('_grp') is not None:
+        base['sibling_sources_share_query'] = True     # several sources were handed the same query object in parallel
     if q is None:
         ctx.bad(dict(base, clause='unparsable'), 'upstream request cannot be parsed by a server: %s (%s)' % (call.url[:300], call.extra.get('unparsable')))
         return
@@ -608,7 +735,17 @@ def judge_wms_call(run, ctx, call, src, asked, op, combined):
         run.hit('judged_srs')
         run.judge(cls + ('srs', call.kind), nontrivial=True)
         if (q['srs'] or '').upper() not in [c.upper() for c in lst]:
-            ctx.bad(dict(base, clause='srs', srs_relation=srel),
+            used = q['srs'] or ''
+            try:
+                eq = norm_code(used) in [norm_code(c) for c in lst]
+            except Exception:
+                eq = False
+            pref = []
+            for k, v in ctx.preferred.items():
+                if asked and norm_code(k) == norm_code(asked['srs']):
+                    pref += [c.upper() for c in v]
+            ctx.bad(dict(base, clause='srs', srs_relation=srel, used='other_code_of_a_listed_srs' if eq else 'unlisted_srs',
+                         used_code_from_preferred_src_proj=used.upper() in pref),
                     'source %s supports %r, upstream request uses %r (asked in %s): %s' % (src['name'], lst, q['srs'], asked and asked['srs'], call.url[:400]))
         if srel.startswith('reproject'):
             run.hit('reprojection_forced_cases')
@@ -636,7 +773,7 @@ def judge_wms_call(run, ctx, call, src, asked, op, combined):
     w, h = q['size']
     valid = w > 0 and h > 0 and all(math.isfinite(v) for v in b) and b[2] > b[0] and b[3] > b[1]
     if not valid:
-        ctx.bad(dict(base, clause='bbox', sub='invalid'), 'upstream request with empty/inverted bbox or size: bbox=%r size=%r: %s' % (b, (w, h), call.url[:400]))
+        ctx.bad(dict(base, clause='bbox', sub='invalid', coverage_relation=crel), 'upstream request with empty/inverted bbox or size: bbox=%r size=%r: %s' % (b, (w, h), call.url[:400]))
     cov = src['coverage']
     if cov and valid:
         env = ctx.cov_env(src, q['srs'])
@@ -734,7 +871,7 @@ def judge_no_call(run, ctx, src, asked, ncalls, op, first_url):
     if crel == 'near':
         run.dc('query_within_2px_of_coverage_edge')
     if crel == 'undefined':
-        run.dc('query_footprint_not_finite_in_coverage_srs')
+        run.dc('query_outside_srs_domain_or_footprint_not_finite_in_coverage_srs')
     if rrel == 'dc':
         run.dc('resolution_within_band_of_limit')
     if rrel == 'mixed':
@@ -782,7 +919,7 @@ def pick_res_m(rng, src, R0):
     return lim / rng.uniform(1.05, 3.0), mode
 
 
-def place_bbox(rng, src, srs, rx, ry, size):
+def place_bbox(rng, src, srs, rx, ry, size, near=False):
     """client bbox of `size` pixels at resolution rx, ry in `srs`, placed relative to the coverage of src"""
     w, h = size[0] * rx, size[1] * ry
     cov = src.get('coverage') if src else None
@@ -793,7 +930,11 @@ def place_bbox(rng, src, srs, rx, ry, size):
         cy = rng.uniform(box[1], box[3])
         return [cx - w / 2, cy - h / 2, cx + w / 2, cy + h / 2], 'free'
     ew, eh = env[2] - env[0], env[3] - env[1]
-    mode = rng.choice(['inside', 'inside', 'partial', 'partial', 'near', 'near', 'far'])
+    if near:
+        # a tall rectangle reaching beyond the coverage to the north and south, a few pixels beside it
+        ry = rx = eh * rng.uniform(1.2, 2.5) / size[1]
+        w, h = size[0] * rx, size[1] * ry
+    mode = 'near' if near else rng.choice(['inside', 'inside', 'partial', 'partial', 'near', 'near', 'far'])
     ecx, ecy = (env[0] + env[2]) / 2, (env[1] + env[3]) / 2
     if mode == 'inside':
         cx, cy = ecx + rng.uniform(-0.25, 0.25) * ew, ecy + rng.uniform(-0.25, 0.25) * eh
@@ -802,7 +943,9 @@ def place_bbox(rng, src, srs, rx, ry, size):
         cy = rng.choice([env[1], env[3], ecy]) + rng.uniform(-0.3, 0.3) * h
     else:
         gap_px = rng.choice([0.5, 1.5, 3, 4, 10, 40]) if mode == 'near' else rng.uniform(300, 3000)
-        side = rng.choice(['l', 'r', 'b', 't'])
+        if near:
+            gap_px = rng.choice([0.3, 0.6, 1.0, 1.5, 2.5])
+        side = rng.choice(['l', 'r']) if near else rng.choice(['l', 'r', 'b', 't'])
         cx, cy = ecx + rng.uniform(-0.3, 0.3) * ew, ecy + rng.uniform(-0.3, 0.3) * eh
         if side == 'l':
             cx = env[0] - gap_px * rx - w / 2
@@ -812,7 +955,15 @@ def place_bbox(rng, src, srs, rx, ry, size):
             cy = env[1] - gap_px * ry - h / 2
         else:
             cy = env[3] + gap_px * ry + h / 2
-    return [cx - w / 2, cy - h / 2, cx + w / 2, cy + h / 2], mode
+    box = [cx - w / 2, cy - h / 2, cx + w / 2, cy + h / 2]
+    if not in_domain(srs, box) and rng.random() < 0.9:
+        # keep most requests inside the world rectangle of the SRS: slide back in, else shrink
+        wd = WORLD[norm_code(srs)]
+        dx = max(0.0, wd[0] - box[0]) - max(0.0, box[2] - wd[2])
+        dy = max(0.0, wd[1] - box[1]) - max(0.0, box[3] - wd[3])
+        box = [box[0] + dx, box[1] + dy, box[2] + dx, box[3] + dy]
+        mode = mode + '_slid'
+    return box, mode
 
 
 CLIENT_DIMS = [('TIME', '2020'), ('ELEVATION', '100'), ('DIM_FOO', 'a'), ('DIM_BAR', 'b'), ('FOO', 'x'), ('time', '2021'),
@@ -837,11 +988,12 @@ def gen_requests(rng, spec):
             target = t
         ops = ['getmap', 'getmap', 'getmap']
         if layer == 'ld':
-            ops.append('fi')
+            if any(byname[n]['featureinfo'] for n in spec['direct_sources']):
+                ops.append('fi')
         else:
             ops += ['tms', 'tms']
-            if layer == 'lc':
-                ops.append('wmts')
+            if layer == 'lc' and spec['cg']['origin'] == 'ul':     # (WMTS skips grids it cannot address from the top)
+                ops += ['wmts', 'wmts']
         op = rng.choice(ops)
         dims = {}
         if rng.random() < 0.7:
@@ -849,14 +1001,17 @@ def gen_requests(rng, spec):
                 if k.lower() not in [d.lower() for d in dims]:
                     dims[k] = v
         if op in ('getmap', 'fi'):
-            srs = rng.choice(POOL)
+            srs = rng.choice(spec['bias_srs']) if spec.get('bias_srs') and rng.random() < 0.6 else rng.choice(POOL)
             u = upm(srs)
             r_m, rmode = pick_res_m(rng, target, spec['R0'])
             rx = ry = r_m * u
             if rng.random() < 0.12:
                 ry = rx * rng.choice([0.5, 0.8, 1.25, 2.0])
             size = [rng.randint(40, 420), rng.randint(40, 420)]
-            bbox, cmode = place_bbox(rng, target, srs, rx, ry, size)
+            near = bool(spec.get('bias_near')) and rng.random() < 0.6
+            if near:
+                size = [rng.randint(40, 160), rng.randint(300, 420)]
+            bbox, cmode = place_bbox(rng, target, srs, rx, ry, size, near)
             req = {'op': op, 'layers': [layer], 'version': rng.choice(['1.1.1', '1.3.0']), 'srs': srs, 'bbox': bbox, 'size': size,
                    'format': rng.choice(['image/png', 'image/png', 'image/jpeg', 'image/gif']), 'dims': dims, 'target': target['name'],
                    'want': [cmode, rmode]}
@@ -937,14 +1092,15 @@ def setup_shard(run):
 
 def run_case(run, case):
     rng = run.rng('case', case['i'])
-    spec = case.get('spec') or gen_spec(rng)
+    spec = case.get('spec') or gen_spec(rng, FLAVOURS[case['i'] % len(FLAVOURS)])
     reqs = case.get('requests') or gen_requests(rng, spec)
     d = run.subdir('c17')
     try:
         _run(run, case, spec, reqs, d)
     finally:
-        shutil.rmtree(d, ignore_errors=True)
         TL.cur = None
+        quiesce(run)
+        shutil.rmtree(d, ignore_errors=True)
 
 
 def _run(run, case, spec, reqs, d):
@@ -967,6 +1123,7 @@ def _run(run, case, spec, reqs, d):
         by_host.setdefault(s['host'], []).append(s)
         up.register(s['host'], wms_handler if s['kind'] == 'wms' else make_tile_handler(t))
     # wrap the sources inside the tile managers
+    obs = Obs()
     for cname, snames in (('c0', spec['cache_sources']), ('ct', ['t0'] if t else [])):
         if not snames:
             continue
@@ -974,7 +1131,17 @@ def _run(run, case, spec, reqs, d):
         if len(tm.sources) != len(snames):
             raise RuntimeError('tile manager %s has %d sources, configured %d' % (cname, len(tm.sources), len(snames)))
         for obj, sname in zip(tm.sources, snames):
-            wrap_source(obj, sname, cname)
+            wrap_source(obs, obj, sname, cname, len(snames), 'cached')
+    if spec.get('concurrent_layer_renderer', 1) > 1 and len(spec['direct_sources']) > 1:
+        # the direct sources of layer ld are rendered in parallel threads with one shared query
+        for svc in sc.services:
+            lyr = getattr(svc, 'layers', {}).get('ld') if hasattr(getattr(svc, 'layers', None), 'get') else None
+            objs = getattr(lyr, 'map_layers', None)
+            if objs and len(objs) == len(spec['direct_sources']) and all(hasattr(o, 'supported_srs') for o in objs):
+                for obj, sname in zip(objs, spec['direct_sources']):
+                    wrap_source(obs, obj, sname, None, len(objs), 'direct')
+                run.count('scenarios_with_parallel_direct_layers')
+                break
     body = sc.get('/tms/1.0.0/').body.decode('utf-8', 'replace')
     tms_paths = {}
     for m in re.finditer(r'href="http://localhost(/tms/1\.0\.0/([^/"]+)/([^/"]+))"', body):
@@ -991,11 +1158,13 @@ def _run(run, case, spec, reqs, d):
             envs[k] = envelope(src['coverage']['bbox'], src['coverage']['srs'], srs)
         return envs[k]
     ctx.cov_env = cov_env
+    ctx.preferred = spec.get('preferred') or {}
     done = []
 
     def bad(mech, detail):
-        ctx.failed = True
-        run.violation(mech, {'i': case['i'], 'spec': spec, 'requests': done[-3:]}, detail + ' | client request: %r' % (done[-1],))
+        # a scenario stops at its first unknown violation; known findings are recorded and the scenario goes on
+        if run.violation(mech, {'i': case['i'], 'spec': spec, 'requests': done[-3:]}, detail + ' | client request: %r' % (done[-1],)) != 'known':
+            ctx.failed = True
     ctx.bad = bad
 
     layer_sources = {'ld': [by_name[n] for n in spec['direct_sources']]}
@@ -1008,15 +1177,16 @@ def _run(run, case, spec, reqs, d):
             continue
         done.append(req)
         up.reset_log()
-        del ASKED[:]
+        del obs.asked[:]
         TL.cur = None
         try:
             resp = sc.get(url)
             run.count('client_%s_status_%d' % (req['op'], resp.code))
         except Exception as ex:
             run.count('client_request_raised:' + type(ex).__name__)
+        quiesce(run)
         calls = list(up.log)
-        asked_list = list(ASKED)
+        asked_list = [a for a in obs.asked if a['path'] == 'cached']
         run.hit('client_requests')
         op = req['op']
         ctx.client_dims = set(k.lower() for k in req['dims'] if DIM_RE.match(k.lower()))
@@ -1025,8 +1195,6 @@ def _run(run, case, spec, reqs, d):
         if op in ('getmap', 'fi'):
             direct_asked = {'bbox': tuple(req['bbox']), 'size': tuple(req['size']), 'srs': req['srs'], 'path': 'direct'}
         per_direct = {}
-        for a in asked_list:
-            a['calls'] = []
         for call in calls:
             srcs = by_host.get(call.host)
             if not srcs:
@@ -1035,8 +1203,10 @@ def _run(run, case, spec, reqs, d):
             run.hit('upstream_calls')
             if srcs[0]['kind'] == 'tile':
                 a = call.extra.get('asked')
-                if a is not None:
+                if a is not None and a['src'] == 't0':
                     a['calls'].append(call)
+                else:
+                    a = None
                 judge_tile_call(run, ctx, call, srcs[0], a, op)
                 continue
             if call.kind not in ('getmap', 'featureinfo'):
@@ -1048,11 +1218,13 @@ def _run(run, case, spec, reqs, d):
                 bad({'clause': 'unknown_layer'}, 'upstream request for layers %r: %s' % (lay, call.url[:300]))
                 continue
             a = call.extra.get('asked')
-            if a is not None and call.kind == 'getmap':
+            if a is not None and a['path'] == 'cached' and call.kind == 'getmap' and any(s['name'] == a['src'] for s in mine):
                 a['calls'].append(call)
                 asked = a
             elif direct_asked is not None and 'ld' in req['layers'] and all(s in layer_sources['ld'] for s in mine):
                 asked = direct_asked
+                if a is not None and a['path'] == 'direct' and a.get('_grp') is not None:
+                    asked = dict(direct_asked, _grp=a['_grp'])
                 for s in mine:
                     per_direct.setdefault(s['name'], []).append(call)
             elif call.kind == 'featureinfo' and direct_asked is not None:
@@ -1078,6 +1250,10 @@ def _run(run, case, spec, reqs, d):
                 cl = per_direct.get(s['name'], [])
                 a = dict(direct_asked, combined=any(len([x for x in c.params.get('layers', '').split(',') if x]) > 1 for c in cl))
                 judge_no_call(run, ctx, s, a, len(cl), op, cl[0].url if cl else '')
+    if obs.waits:
+        run.hit('rendezvous_of_sibling_sources', obs.waits)
+    if obs.timeouts:
+        run.count('rendezvous_timeouts', obs.timeouts)
     if not ctx.failed:
         run.hit('scenarios')
         if case['i'] < 3:
@@ -1092,11 +1268,15 @@ def cross_check_level(run, ctx, spec, req, a):
         g = spec['tile']['cache_grid']
     else:
         return
+    if g['srs'] in WORLD and tuple(g['bbox']) == WORLD[g['srs']]:
+        return      # global profiles: the tile services renumber the levels
     z = req['tile'][2]
     rx = (a['bbox'][2] - a['bbox'][0]) / a['size'][0]
     run.hit('asked_resolution_crosschecked')
-    if abs(rx - g['res'][z]) > 1e-6 * g['res'][z]:
+    if abs(rx - g['res'][z]) > 1e-3 * g['res'][z]:     # (meta tiles clipped at the grid border are rounded to pixels)
         run.count('asked_resolution_differs_from_requested_level')
+        if os.environ.get('C17_DEBUG'):
+            print('LEVELDIFF', req, a, g)
 
 
 def evidence_extra(total):
